@@ -1122,25 +1122,32 @@ impl DictZipBlobStore {
 
     /// Decode Huffman O1 encoded data with configured interleaving
     fn decode_huffman_o1(&self, data: &[u8], original_size: usize) -> Result<Vec<u8>> {
-        // Get or build decoder (lazy initialization)
-        if self.huffman_decoder.borrow().is_none() {
-            // Build decoder from encoder - first build encoder
+        // Ensure the encoder exists (lazy initialization); the interleaved decoders live on it
+        if self.huffman_encoder.borrow().is_none() {
             let dict = self.dictionary.read()
                 .map_err(|_| ZiporaError::resource_busy("Dictionary read lock"))?;
 
             let training_data = dict.data();
-            let encoder = ContextualHuffmanEncoder::new(training_data, crate::entropy::huffman::HuffmanOrder::Order1)?;
-            let new_decoder = ContextualHuffmanDecoder::new(encoder);
-            *self.huffman_decoder.borrow_mut() = Some(new_decoder);
+            let new_encoder = ContextualHuffmanEncoder::new(training_data, crate::entropy::huffman::HuffmanOrder::Order1)?;
+            *self.huffman_encoder.borrow_mut() = Some(new_encoder);
         }
 
-        // Get decoder clone for use
-        let binding = self.huffman_decoder.borrow();
-        let decoder = binding.as_ref().unwrap().clone();
+        let binding = self.huffman_encoder.borrow();
+        let encoder = binding.as_ref().unwrap();
 
-        // The decoder's decode method already handles the encoding format
-        // The interleaving is determined by how the data was encoded
-        decoder.decode(data, original_size)
+        // Decode with the same interleaving factor that apply_huffman_o1_encoding used
+        match self.config.entropy_interleaved {
+            0 | 1 => encoder.decode_x1(data, original_size),
+            2 => encoder.decode_x2(data, original_size),
+            4 => encoder.decode_x4(data, original_size),
+            8 => encoder.decode_x8(data, original_size),
+            _ => {
+                Err(ZiporaError::Configuration {
+                    message: format!("Invalid interleaving factor: {}",
+                                   self.config.entropy_interleaved)
+                })
+            }
+        }
     }
 
     /// Decode FSE encoded data
